@@ -26,6 +26,11 @@ def main():
             readme = open(os.path.join(d, "demo", f)).read()
     # every "`file` to `path`" pair
     copies = re.findall(r"`([^`\s]+\.go)`\s+to\s+`([^`\s]+)`", readme)
+    if not copies:  # same sentence without backticks
+        copies = re.findall(r"[Cc]opy\s+(\S+\.go)\s+to\s+(\S+\.go)", readme)
+    if not copies:  # "copy X to dir/" form
+        for src, dst in re.findall(r"`?([\w./-]+\.go)`?[^\n]*?\bto\s+`?((?:x|types)/[\w./-]+/)`?", readme):
+            copies.append((src, dst + os.path.basename(src)))
     m = re.search(r"cd\s+(?:<repo>/)?(\S+)\s*&&\s*(go test[^\n]*)", readme)
     if not copies or not m:
         print(json.dumps({"name": name, "error": "cannot parse README", "readme": readme[:400]}))
